@@ -122,7 +122,7 @@ FAfter(r) ==
 (* the set-up protocol: a new object is not set up; set_up makes it ready; a setter that changes the *)
 (* configuration (all recorded Setter lines do) makes it not ready again                             *)
 ReadyAfter(r) ==
-  IF r.e = "Instance" THEN (IF Has(r, "reuse") /\ r.reuse THEN ready ELSE FALSE)
+  IF r.e = "Instance" THEN FALSE       \* a (re-)configured object is served only after the set_up that follows
   ELSE IF r.e = "SetUp" THEN ~r.err /\ r.ok
   ELSE IF r.e = "Setter" THEN L!ReadyAfterSetter(ready, r.name, TRUE)
   ELSE IF r.e = "System" THEN FALSE
